@@ -314,7 +314,11 @@ def main():
                       kind_free_text="Lean 4 models + theorems (lean/Qats), tied to /repo on every run by a formula translator "
                                      "(harness/translate.py) and/or a model-vs-implementation correspondence check (harness/props/*.py)")],
         checks=checks,
-        notes="See DESIGN.md. known_findings.json lists genuine defects (fixed / known).",
+        notes="See DESIGN.md. known_findings.json lists genuine defects (fixed / known). Every check runs with the local time zone set per "
+              "seed (TZ, zones with daylight saving and fractional offsets; VERIF_TZ overrides), records the lines of the anchored source it "
+              "executed (evidence: coverage.impl_coverage) and which model definitions of its theorem statements the driver executed "
+              "(coverage.tie_coverage); sub-streams named `strict` run with warnings raised as errors and numpy raising on floating-point "
+              "errors. Exit codes: 0 held, 1 violation, 2 infrastructure failure.",
         not_applicable=na)
     with open(os.path.join(HERE, "MANIFEST.json"), "w") as f:
         json.dump(man, f, indent=1)
